@@ -23,6 +23,14 @@ theorem npow_eq (x : ℝ) (k : Nat) : npow x k = x ^ k := by
   | zero => simp [npow]
   | succ k ih => simp [npow, ih, pow_succ]
 
+/-- row `i` of the design matrix applied to `p` -/
+theorem design_pred_eq (d : Nat) (x p : Nat → ℝ) (i : Nat) :
+    pred (d + 1) (design d x) p i = ∑ k ∈ Finset.range (d + 1), p k * x i ^ (d - k) := by
+  simp only [pred, design, sumN_eq, npow_eq, num_mul]
+  apply Finset.sum_congr rfl
+  intro k _
+  ring
+
 /-- changing parameter `k < m` in the environment of a model formula -/
 theorem envOf_update_param (m : Nat) (p : Nat → ℝ) (x : ℝ) (k : Nat) (hk : k < m) (t : ℝ) :
     envOf m (Function.update p k t) x = Function.update (envOf m p x) k t := by
